@@ -675,6 +675,7 @@ def _spawn_child(specs, hashseed, shuffle):
     finally:
         try:
             os.remove(path)
+            os.rmdir(wd)  # only succeeds when nothing else lives in this process' scratch directory
         except OSError:
             pass
     if p.returncode != 0:
